@@ -952,6 +952,15 @@ class Explorer:
             cargs = args[1]
             cvals = list(cargs[1]) if cargs[0] == "tup" else ([] if cargs[0] == "unit" else [cargs])
             return self.enter(st, stack, fr, self.F.fns[clo[1]], [args[0]] + cvals, dest, target, None, closure=True)
+        # a function item passed where a closure is expected (`helper(x, Self::predicate)`): the call goes to that function
+        if info["path"].startswith("std::ops::Fn") and args:
+            fv = args[0]
+            if fv[0] == "ref":
+                fv = self.read_loc(st, fv[1], fv[2])
+            if fv[0] == "fn" and fv[1] in self.F.fns and len(args) > 1 and len(stack) < 12:
+                cargs = args[1]
+                cvals = list(cargs[1]) if cargs[0] == "tup" else ([] if cargs[0] == "unit" else [cargs])
+                return self.enter(st, stack, fr, self.F.fns[fv[1]], cvals, dest, target, None)
         m = self.model_call(st, stack, fr, info, path, args, t, site)
         if m is not None:
             return m
@@ -1997,6 +2006,8 @@ class Explorer:
         # ---- higher-order calls with a local closure argument
         clos = [(i, self.closure_of(st, a)) for i, a in enumerate(args)]
         clos = [(i, c) for i, c in clos if c is not None and c[1] in self.F.fns]
+        if clos and path in self.F.fns and self.inline_pred(self, self.F.fns[path], info):
+            return None        # an in-crate function taking a closure that is going to be inlined: the closure travels as an argument
         if clos:
             return self.higher_order(st, stack, fr, info, path, args, clos, t, site)
         return None
